@@ -13,6 +13,7 @@ mod nfwd;
 mod nc15;
 mod nmesh;
 mod nc12;
+mod nc05;
 mod codec;
 mod beacon;
 mod keys;
@@ -41,6 +42,7 @@ fn dispatch(args: &[String]) -> i32 {
         ("node", "fwdsched") => nfwd::run_sched(a(3), a(4), a(5)),
         ("node", "fwdrandom") => nfwd::run_random(n(3), n(4), a(5), a(6), n(7) as usize),
         ("node", "mesh") => nmesh::run(a(3), a(4), a(5)),
+        ("node", "c05") => nc05::run(a(3), a(4)),
         ("node", "c12") => nc12::run(a(3), a(4)),
         ("node", "c15") => nc15::run(a(3), a(4)),
         ("node", "vlan") => nfwd::run_vlan(a(3)),
